@@ -1,5 +1,8 @@
 (* C17 model driver: reads the same case lines as harness/src/bin/modops.rs and prints the same result lines,
-   computed by the extracted Coq model (gen/c17_model.ml). *)
+   computed by the extracted Coq model (ocaml/gen/c17_model.ml).
+   Arguments: --reject-m, --own-pending, --gather-keeps select the repaired variants of Modules.cfg (default: cfg0).
+   A read of a `var` export whose module body has not started prints '?': the engine prints '!' (binding not
+   initialised by InitializeEnvironment, a known finding) or 'u' (repaired); the check treats '?' as either. *)
 open C17_model
 
 let rec nat_of_int n = if n <= 0 then O else S (nat_of_int (n - 1))
@@ -77,12 +80,14 @@ let panic_str = function
 
 let rec drop n l = if n <= 0 then l else match l with [] -> [] | _ :: r -> drop (n - 1) r
 
+let the_cfg = ref cfg0
+
 let run line =
   let mods, ops = parse_case line in
   let g = List.map modinfo_of mods in
   let is_let t = match List.nth_opt mods t with Some (fl, _) -> String.contains fl 'l' | None -> false in
   let minfo = Array.of_list g in
-  let phase_char t p = match p with 0 -> '!' | 1 -> if is_let t then '!' else 'u' | 2 -> '1' | _ -> '2' in
+  let phase_char t p = match p with 0 -> if is_let t then '!' else '?' | 1 -> if is_let t then '!' else 'u' | 2 -> '1' | _ -> '2' in
   let reads_str m ps =
     let targets = if m < Array.length minfo then List.map int_of_nat minfo.(m).mi_reads else [] in
     let b = Buffer.create 8 in
@@ -93,7 +98,7 @@ let run line =
     | EvStart (m, ps) -> let m = int_of_nat m in Printf.sprintf "start:m%d:%s" m (reads_str m ps)
     | EvEnd (m, ps) -> let m = int_of_nat m in Printf.sprintf "end:m%d:%s" m (reads_str m ps)
   in
-  let results = run_ops (default_fuel g) g gs0 (List.map nat_of_int ops) in
+  let results = run_ops !the_cfg (default_fuel g) g gs0 (List.map nat_of_int ops) in
   let plog = ref 0 and ploads = ref 0 in
   let outs =
     List.mapi
@@ -119,6 +124,15 @@ let run line =
   String.concat ";" outs
 
 let () =
+  let rej = ref false and own = ref false and keeps = ref false in
+  Array.iteri
+    (fun i a -> if i > 0 then match a with
+       | "--reject-m" -> rej := true
+       | "--own-pending" -> own := true
+       | "--gather-keeps" -> keeps := true
+       | _ -> (prerr_endline ("unknown argument " ^ a); exit 2))
+    Sys.argv;
+  the_cfg := { cf_reject_m = !rej; cf_own_pending = !own; cf_gather_keeps = !keeps };
   try
     while true do
       let line = trim (input_line stdin) in
